@@ -9,6 +9,13 @@ GROUPS += [g for g in _c05.GROUPS if any(k in g.name for k in ("add_bin", "parse
 GROUPS.append(Group(name="C02/flag_protocol_all_cpus", unity="C02/u_protocol.cpp", entry="h_protocol", cpp_sources=["core/cpu_list.cpp"],
                     functions=[("cpu_list[]", "core/cpu_list.cpp", "data; every row checked")], unwind=90, checks=["--bounds-check", "--pointer-check"], timeout=300,
                     defines=[]))
+# two-pass consistency of .set symbols: "after lock() (pass 2) a .set symbol still follows its assignments in source order" is an
+# obligation of the Symbols contract (bounded scenario of C11); shared here in the thorough tier
+import C11 as _c11
+import copy as _copy
+for _g in _c11.GROUPS:
+    if "set_source_order" in _g.name:
+        _g2 = _copy.copy(_g); _g2.tier = "thorough"; GROUPS.append(_g2)
 LEVEL = "proof"
 TRUSTED = _c01.TRUSTED + ["the set of encoders that use the pass-1 flag-byte protocol is determined by a source scan (memory_write at asm_context->address) done on every run (tools/prep_tree.py -> gen/protocol_encoders.inc)"]
 MANIFEST = {
